@@ -598,6 +598,10 @@ func main() {
 		periodic = periodic && top && strings.Count(src(rtStart), "pushPeriodically") == 1
 	}
 	addBool("periodic_push_runs_on_every_member", periodic, "Start launches pushPeriodically unconditionally; the loop calls updateRouting on every tick, which returns at once unless this member is the coordinator NOW")
+	pushChecked := vr != nil && funcDecl(opGo, "RoutingTable", "updateRoutingCommandHandler") != nil &&
+		ordered(src(vr), "r.config.PartitionCount != uint64(len(table))", "for partID, data := range table", "partID >= r.config.PartitionCount", "data == nil || len(data.Owners) == 0", "return nil") &&
+		ordered(src(funcDecl(opGo, "RoutingTable", "updateRoutingCommandHandler")), "msgpack.Unmarshal(updateRoutingCmd.Payload, &table)", "r.verifyRoutingTable(updateRoutingCmd.CoordinatorID, table)", "protocol.WriteError(conn, err)", "return", "part.SetOwners(data.Owners)")
+	addBool("pushed_table_is_checked_before_it_is_applied", pushChecked, "a member checks every entry of a pushed routing table (partition id in range, a route, at least one primary owner) before it touches its partitions")
 	addBool("only_oldest_member_computes_and_receivers_verify_sender", coord, "updateRouting runs on the coordinator only (oldest member by birthdate), receivers reject a table whose sender is not their coordinator")
 
 	// ---- structural facts: critical sections of writes, steps of a read (C01)
